@@ -196,8 +196,8 @@ pub fn large_graph(c: &LargeCase) -> (Graph, Vec<usize>, &'static str) {
     }
 }
 
-/// Shape 6: a short chain whose targets declare a command that prints size*100 bytes (up to
-/// 200 KB, i.e. several pipe buffers).
+/// Shape 6: a short chain whose targets declare a command that prints 66 000 + size*100 bytes
+/// (always more than one pipe buffer, up to 266 KB).
 fn cmd_heavy_graph() -> Graph {
     let b = |deps: Vec<usize>| GT { proj: 0, kind: Kind::Build, deps, outdeps: vec![] };
     Graph { root_named: false, nproj: 1, targets: vec![b(vec![]), b(vec![0]), b(vec![1])], homonyms: false }
@@ -289,7 +289,7 @@ pub fn eval_large(c: &LargeCase) -> CaseResult {
         // add the command input to every target
         let path = dir.join("zinoma.yml");
         let mut doc: Value = serde_json::from_str(&std::fs::read_to_string(&path).unwrap()).unwrap();
-        let cmd = format!("head -c {} /dev/zero | tr '\\000' x", c.size * 100);
+        let cmd = format!("head -c {} /dev/zero | tr '\\000' x", 66_000 + c.size * 100);
         for (_, t) in doc["targets"].as_object_mut().unwrap().iter_mut() {
             t["input"] = json!([{"cmd_stdout": cmd}]);
         }
@@ -314,7 +314,7 @@ pub fn eval_large(c: &LargeCase) -> CaseResult {
             dep_count.values().copied().max().unwrap_or(0)
         });
     let depth = if shape == "chain" { g.n() } else { 0 };
-    let nontrivial = max_fan >= 33 || depth >= 50 || roots.len() >= 33 || (cmd_heavy && c.size * 100 > 65_536) || (special && !planted.is_empty());
+    let nontrivial = max_fan >= 33 || depth >= 50 || roots.len() >= 33 || cmd_heavy || (special && !planted.is_empty());
     let sample = json!({"shape": shape, "size": c.size, "targets": g.n(), "requested": roots.len(), "max_fan": max_fan, "non_regular_entries": planted, "runtime_threads": rt});
     let mut r = CaseResult {
         nontrivial,
